@@ -1686,6 +1686,56 @@ func Transfer(w *load.World, c *core.Collector) {
 			} else {
 				c.Add("TRANSFER", "sync:both-phases", core.OK, w.At(shards), "", props...)
 			}
+			// a Sync that skips the phases does so only because the node itself is the (only) listed
+			// server: a list of one that names another server means everything here has to move there
+			var selfEdges []ssax.Edge
+			for _, b := range sy.Blocks {
+				ifi, ok := b.Instrs[len(b.Instrs)-1].(*ssa.If)
+				if !ok {
+					continue
+				}
+				cond, neg := ifi.Cond, false
+				if u, ok := cond.(*ssa.UnOp); ok && u.Op == token.NOT {
+					cond, neg = u.X, true
+				}
+				bo, ok := cond.(*ssa.BinOp)
+				if !ok || (bo.Op != token.EQL && bo.Op != token.NEQ) {
+					continue
+				}
+				ox, oy := provDeep(w, bo.X), provDeep(w, bo.Y)
+				has := func(o ssax.Origins, sub string) bool {
+					for k := range o {
+						if strings.Contains(k, sub) {
+							return true
+						}
+					}
+					return false
+				}
+				if (has(ox, "field:MyHostname") && has(oy, "field:Servers")) || (has(oy, "field:MyHostname") && has(ox, "field:Servers")) {
+					s := 0
+					if (bo.Op == token.NEQ) != neg {
+						s = 1
+					}
+					selfEdges = append(selfEdges, ssax.Edge{From: b, Succ: s})
+				}
+			}
+			badSkip := ""
+			for _, ex := range successExits(sy) {
+				if ssax.Precedes(rec, ex.In) {
+					continue
+				}
+				if v, ok := ex.Val.(ssa.Value); ok && (v == ssa.Value(rec) || v == ssa.Value(shards)) {
+					continue
+				}
+				if !onlyViaAny(selfEdges, ex.In.Block()) {
+					badSkip = w.At(ex.In)
+				}
+			}
+			if badSkip != "" {
+				c.Add("TRANSFER", "sync:skip-only-if-alone", core.Violation, badSkip, "Sync can return without running its phases on a path that has not established that a listed server is this node: a node started with a list of one that names another server keeps all its records and shards, which routing now looks for elsewhere", props...)
+			} else {
+				c.Add("TRANSFER", "sync:skip-only-if-alone", core.OK, w.Position(sy.Pos()), "", props...)
+			}
 		}
 	}
 	// ORDER in main
@@ -2124,6 +2174,7 @@ func Quota(w *load.World, c *core.Collector) {
 // ---------------------------------------------------------------- LIFECYCLE
 
 func Lifecycle(w *load.World, c *core.Collector) {
+	shardConfined(w, c)
 	props := []string{"C12"}
 	n := 0
 	for _, f := range clusterFns(w) {
@@ -3328,6 +3379,7 @@ func ReplyFlags(w *load.World, c *core.Collector) {
 // callback stores a value computed from a variable that another callback
 // decoded a record into.
 func TxRMW(w *load.World, c *core.Collector) {
+	updateFromStored(w, c)
 	props := []string{"C17", "C15"}
 	byParent := map[*ssa.Function][]txCallback{}
 	for _, cb := range txCallbacks(w) {
@@ -3825,4 +3877,247 @@ func errResultValue(call *ssa.Call) ssa.Value {
 		}
 	}
 	return nil
+}
+
+// shardConfined: the shard handed to a DoWithShard callback is good for the duration of the
+// callback only (the manager holds the per-shard read lock around it; afterwards the idle unload
+// or a collection deletion may close the shard and remove its files). The callback uses the
+// pointer; it does not keep it: it is not stored into a variable of the enclosing function, a
+// field, a global, a channel, nor returned or captured by a goroutine.
+func shardConfined(w *load.World, c *core.Collector) {
+	props := []string{"C12"}
+	dws := findFn(w, "(*cluster.ShardManager).DoWithShard")
+	if dws == nil {
+		c.Add("LIFECYCLE", "anchor:DoWithShard", core.Undecided, "", "ShardManager.DoWithShard not found", props...)
+		return
+	}
+	n := 0
+	seenCb := map[*ssa.Function]bool{}
+	for _, site := range staticCallSites(w, dws) {
+		args := site.Common().Args
+		if len(args) == 0 {
+			continue
+		}
+		for _, cb := range funcValuesOf(w, args[len(args)-1], 0) {
+			if seenCb[cb] || len(cb.Params) == 0 {
+				continue
+			}
+			seenCb[cb] = true
+			n++
+			var p ssa.Value = cb.Params[len(cb.Params)-1]
+			if !strings.HasSuffix(p.Type().String(), "shard.Shard") {
+				continue
+			}
+			bad := ""
+			var badAt ssa.Instruction
+			seen := map[ssa.Value]bool{}
+			var follow func(v ssa.Value, d int)
+			follow = func(v ssa.Value, d int) {
+				if d > 5 || seen[v] || v.Referrers() == nil {
+					return
+				}
+				seen[v] = true
+				for _, r := range *v.Referrers() {
+					switch x := r.(type) {
+					case *ssa.Store:
+						if x.Val != v {
+							continue
+						}
+						if al, ok := x.Addr.(*ssa.Alloc); ok && !al.Heap {
+							// a local copy: its loads are the same pointer
+							for _, rr := range *al.Referrers() {
+								if ld, ok := rr.(*ssa.UnOp); ok && ld.Op == token.MUL {
+									follow(ld, d+1)
+								}
+							}
+							continue
+						}
+						bad, badAt = "is stored where it outlives the callback", x
+					case *ssa.Return:
+						bad, badAt = "is returned", x
+					case *ssa.Send:
+						if x.X == v {
+							bad, badAt = "is sent on a channel", x
+						}
+					case *ssa.MakeClosure:
+						// captured: only harmful when the literal outlives the callback (go, or stored); a
+						// literal that is called in place is part of the callback
+						fn := x.Fn.(*ssa.Function)
+						for _, rr := range *x.Referrers() {
+							if _, isGo := rr.(*ssa.Go); isGo {
+								bad, badAt = "is captured by a goroutine", rr
+							}
+							if st, isSt := rr.(*ssa.Store); isSt && st.Val == ssa.Value(x) {
+								if al, ok := st.Addr.(*ssa.Alloc); !ok || al.Heap {
+									bad, badAt = "is captured by a function value that is stored", rr
+								}
+							}
+						}
+						_ = fn
+					case *ssa.MakeInterface:
+						follow(x, d+1)
+					case *ssa.Phi:
+						follow(x, d+1)
+					case *ssa.ChangeType:
+						follow(x, d+1)
+					}
+				}
+			}
+			follow(p, 0)
+			key := "shard-confined:" + load.FnKey(cb)
+			if bad != "" {
+				c.Add("LIFECYCLE", key, core.Violation, w.At(badAt), "the shard pointer a DoWithShard callback was given "+bad+": it is used after the manager's per-shard lock is released, when the idle unload or a deletion may already have closed the shard (the caller gets \"database not open\" instead of a result or the manager's clean refusal)", props...)
+			} else {
+				c.Add("LIFECYCLE", key, core.OK, w.Position(cb.Pos()), "", props...)
+			}
+		}
+	}
+	if n < 4 {
+		c.Add("LIFECYCLE", "anchor:shard-callbacks", core.Undecided, "", fmt.Sprintf("found %d DoWithShard callbacks, expected at least 4", n), props...)
+	}
+}
+
+// updateFromStored: a write transaction of the cluster package that replaces a record which is
+// there (a Put whose key was looked up with Get in the same callback, and which is not confined to
+// the "Get returned nil" edge) writes the stored record, changed: the value put is the encoding
+// of a cell that was decoded from what Get returned. A handler that writes back the caller's copy
+// of the record instead loses every change made to the stored one since the caller read it
+// (shard ids added by a concurrent insert disappear from the collection, with the points in them).
+func updateFromStored(w *load.World, c *core.Collector) {
+	props := []string{"C15", "C17"}
+	n := 0
+	isBucketCall := func(call *ssa.Call, name string) bool {
+		cc := call.Common()
+		if cc.IsInvoke() {
+			return cc.Method.Name() == name && strings.Contains(cc.Value.Type().String(), "diskstore.")
+		}
+		return false
+	}
+	for _, cb := range txCallbacks(w) {
+		if !cb.Write || !strings.HasSuffix(load.PkgPath(cb.Fn), "/cluster") {
+			continue
+		}
+		f := cb.Fn
+		var gets, puts []*ssa.Call
+		for _, b := range f.Blocks {
+			for _, in := range b.Instrs {
+				if call, ok := in.(*ssa.Call); ok {
+					if isBucketCall(call, "Get") && len(call.Call.Args) == 1 && !strings.Contains(call.Call.Value.Type().String(), "BucketManager") {
+						gets = append(gets, call)
+					}
+					if isBucketCall(call, "Put") && len(call.Call.Args) == 2 {
+						puts = append(puts, call)
+					}
+				}
+			}
+		}
+		for _, put := range puts {
+			kp, _ := ssax.Path(put.Call.Args[0])
+			var get *ssa.Call
+			for _, g := range gets {
+				gp, _ := ssax.Path(g.Call.Args[0])
+				if g.Call.Args[0] == put.Call.Args[0] || (gp != "" && gp == kp) || sameConcat(g.Call.Args[0], put.Call.Args[0]) {
+					get = g
+				}
+			}
+			if get == nil {
+				continue
+			}
+			// creation: the Put runs only where Get returned nil
+			var nilEdges []ssax.Edge
+			for _, b := range f.Blocks {
+				ifi, ok := b.Instrs[len(b.Instrs)-1].(*ssa.If)
+				if !ok {
+					continue
+				}
+				bo, ok := ifi.Cond.(*ssa.BinOp)
+				if !ok || (bo.Op != token.EQL && bo.Op != token.NEQ) {
+					continue
+				}
+				if (bo.X == ssa.Value(get) && ssax.IsNilConst(bo.Y)) || (bo.Y == ssa.Value(get) && ssax.IsNilConst(bo.X)) {
+					s := 0
+					if bo.Op == token.NEQ {
+						s = 1
+					}
+					nilEdges = append(nilEdges, ssax.Edge{From: b, Succ: s})
+				}
+			}
+			if len(nilEdges) > 0 && onlyViaAny(nilEdges, put.Block()) {
+				continue
+			}
+			n++
+			key := "update-from-stored:" + load.FnKey(f)
+			// the value: Marshal(cell) with cell decoded from the Get
+			okFlow := false
+			val := put.Call.Args[1]
+			if ex, ok := val.(*ssa.Extract); ok {
+				val = ex.Tuple
+			}
+			if mcall, ok := val.(*ssa.Call); ok && mcall.Call.StaticCallee() != nil && strings.Contains(mcall.Call.StaticCallee().Name(), "Marshal") && len(mcall.Call.Args) > 0 {
+				src := mcall.Call.Args[0]
+				for i := 0; i < 3; i++ {
+					switch x := src.(type) {
+					case *ssa.MakeInterface:
+						src = x.X
+					case *ssa.UnOp:
+						src = x.X
+					}
+				}
+				if cell, ok := src.(*ssa.Alloc); ok {
+					decodedFromGet, overwritten := false, false
+					for _, r := range *cell.Referrers() {
+						switch x := r.(type) {
+						case *ssa.MakeInterface:
+							for _, rr := range *x.Referrers() {
+								if uc, ok := rr.(*ssa.Call); ok && uc.Call.StaticCallee() != nil && strings.Contains(uc.Call.StaticCallee().Name(), "Unmarshal") && len(uc.Call.Args) >= 2 && uc.Call.Args[1] == ssa.Value(x) {
+									if uc.Call.Args[0] == ssa.Value(get) {
+										decodedFromGet = true
+									}
+								}
+							}
+						case *ssa.Store:
+							// a whole-record assignment from elsewhere replaces what was decoded
+							if x.Addr == ssa.Value(cell) {
+								if _, isZero := x.Val.(*ssa.Const); !isZero {
+									overwritten = true
+								}
+							}
+						}
+					}
+					okFlow = decodedFromGet && !overwritten
+				}
+			} else if val == ssa.Value(get) {
+				okFlow = true
+			}
+			if okFlow {
+				c.Add("TXRMW", key, core.OK, w.At(put), "", props...)
+			} else {
+				c.Add("TXRMW", key, core.Violation, w.At(put), "a record that exists is replaced by a value that is not the stored record decoded and changed (the caller's copy, or a fresh value): what other requests added to the stored record since the caller read it is lost — shard ids created by a concurrent or an earlier create in the same insert vanish from the collection", props...)
+			}
+		}
+	}
+	if n < 1 {
+		c.Add("TXRMW", "anchor:record-updates", core.Undecided, "", "no write transaction that replaces an existing record was found in the cluster package", props...)
+	}
+}
+
+// sameConcat: both keys are built from the same operands
+func sameConcat(a, b ssa.Value) bool {
+	oa, ob := concatOperands(a), concatOperands(b)
+	if len(oa) < 2 || len(oa) != len(ob) {
+		return false
+	}
+	for i := range oa {
+		pa, _ := ssax.Path(oa[i])
+		pb, _ := ssax.Path(ob[i])
+		ca, oka := ssax.ConstString(oa[i])
+		cb, okb := ssax.ConstString(ob[i])
+		if oka && okb && ca == cb {
+			continue
+		}
+		if oa[i] != ob[i] && (pa == "" || pa != pb) {
+			return false
+		}
+	}
+	return true
 }
